@@ -9,4 +9,6 @@ Extraction "modelc15.ml"
   root_view run_ops apply_op dom_op exec_op l_sizes l_strides v_addr v_rank
   plan_of fftw_plan_dft guru_kosher
   fe_dft fe_plan_execute fe_fft_range iter_pair_okb v_from_iterators fe_dft_inplace fe_dft_forward fe_dft_backward
-  guru_cells plan_out_addresses plan_in_addresses footprint zero_basedb tuples select.
+  plan_ctor planning_preserves_arrays planning_needs_wisdom plan_nonnull
+  guru_cells plan_out_addresses plan_in_addresses footprint footprint_x firsts v_origin l_extensions r_eq
+  iter_pair_sizeb zero_basedb tuples select.
